@@ -815,6 +815,22 @@ def length_of(ip, t):
             k = ip.sym_kind.get(a[1], 'scalar')
             if k != 'scalar':
                 kinds.add(a[1])
+    # every array-valued ingredient is the same leading slice x[lo:hi] with constant bounds: hi - lo points (the grids of a
+    # PRISM object have more points than the few lowest-k points such a slice takes; recorded as an assumption)
+    sl = [a for a in t.all_atoms() if a[0] == 'fn' and a[1] == 'slice']
+    if sl and not kinds - {s_ for a in sl for s_ in N.NF.atom(a).symbols()}:
+        bounds = set()
+        for a in sl:
+            lo, hi = (N.nf_from_key(x) if N.is_nfkey(x) else None for x in a[3:5])
+            if lo is None or hi is None or not lo.is_const() or not hi.is_const() or hi.const_value() < 0:
+                bounds = None
+                break
+            bounds.add((lo.const_value(), hi.const_value()))
+        top = {a for a in t.atoms() if a[0] == 'sym' and ip.sym_kind.get(a[1], 'scalar') != 'scalar'}
+        if bounds and len(bounds) == 1 and not top:
+            (lo, hi), = bounds
+            ip.notes.append(('assumption', 'arrays have at least %s points (length of a [%s:%s] slice)' % (hi, lo, hi)))
+            return N.NF.const(hi - lo)
     if len(kinds) == 1:
         name = kinds.pop()
         name = getattr(ip, 'len_alias', {}).get(name, name)      # arrays the world declares to live on one grid
@@ -1117,6 +1133,27 @@ def b_hasattr(ip, args, kwargs, node):
             return TRUE
         return FALSE
     raise Unsupported('hasattr on %r' % (o,), node)
+
+
+def b_type(ip, args, kwargs, node):
+    if len(args) != 1:
+        raise Unsupported('type() with %d arguments' % len(args), node)
+    x = args[0]
+    if isinstance(x, Obj) and not isinstance(x.cls, str):
+        return ClassRef(x.cls)
+    if isinstance(x, Const):
+        return Lib('builtins.' + type(x.v).__name__)
+    if isinstance(x, Num) and x.kind == 'scalar' and not P.is_pw(x.t):
+        if getattr(x, 'pyfloat', False):
+            return Lib('builtins.float')
+        if _is_integer_valued(x.t):
+            return Lib('builtins.int')
+        raise Unsupported('type() of a symbolic number (int or float is not known)', node)
+    if isinstance(x, Seq) and x.kind in ('list', 'tuple', 'set', 'frozenset'):
+        return Lib('builtins.' + x.kind)
+    if isinstance(x, (Arr, View)):
+        return Lib('numpy.ndarray')
+    raise Unsupported('type(%r)' % (x,), node)
 
 
 def b_vars(ip, args, kwargs, node):
@@ -1487,7 +1524,7 @@ CALLS = {
     'itertools.product': it_product, 'itertools.combinations': it_combinations(False),
     'itertools.combinations_with_replacement': it_combinations(True),
     'warnings.warn': w_warn,
-    'builtins.len': b_len, 'builtins.range': b_range, 'builtins.abs': b_abs, 'builtins.sum': b_sum, 'builtins.setattr': b_setattr, 'builtins.vars': b_vars, 'numpy.isclose': np_isclose,
+    'builtins.len': b_len, 'builtins.range': b_range, 'builtins.abs': b_abs, 'builtins.sum': b_sum, 'builtins.setattr': b_setattr, 'builtins.vars': b_vars, 'builtins.type': b_type, 'numpy.isclose': np_isclose,
     'numpy.testing.assert_allclose': np_assert_allclose, 'numpy.ascontiguousarray': np_asarray, 'numpy.asfortranarray': np_copy, 'builtins.zip': b_zip, 'builtins.reversed': b_reversed, 'builtins.sorted': b_sorted, 'numpy.size': np_size, 'numpy.finfo': np_finfo, 'numpy.identity': np_identity, 'numpy.eye': np_identity,
     'operator.lt': op_fn('cmp', 'Lt'), 'operator.le': op_fn('cmp', 'LtE'), 'operator.gt': op_fn('cmp', 'Gt'), 'operator.ge': op_fn('cmp', 'GtE'),
     'operator.eq': op_fn('cmp', 'Eq'), 'operator.ne': op_fn('cmp', 'NotEq'), 'operator.add': op_fn('bin', 'Add'), 'operator.sub': op_fn('bin', 'Sub'),
@@ -1783,6 +1820,10 @@ def _dict_key(k, node):
         return k.v
     if isinstance(k, Label):
         return ('label', k.name)
+    if isinstance(k, Lib):
+        return ('lib', k.name)
+    if isinstance(k, ClassRef):
+        return ('class', k.cls.qualname)
     if isinstance(k, Seq) and k.kind != 'list':
         return tuple(_dict_key(x, node) for x in k.items)
     raise Unsupported('dictionary key %r is not hashable in the model' % (k,), node)
